@@ -1,6 +1,7 @@
 import PoxModel.Base.Proto
 import PoxModel.Model.Conn
 import PoxModel.Model.ConnL
+import PoxModel.Model.ConnH
 open Pox Pox.Proto Pox.Conn
 
 def parseMsg (j : J) : Except String Msg := do
@@ -43,7 +44,7 @@ def parseCfg (j : J) : Except String Cfg :=
   | none => throw "missing cfg (the harness reads the variant off the source)"
   | some c => do pure ⟨← c.boolean "d3", ← c.boolean "down", ← c.boolean "read", ← c.boolean "err", ← c.boolean "dpid"⟩
 
-/-- request {"ops":[…],"dpids":[…], "listeners"?:{up:"send"|"sendto"|"disc"|null, down:"sendto"|null, stop:bool}, "cfg":{d3,down,read,err,dpid}} → {"steps":[[out…]…] (chronological), "reg":[[d, c|null]…],
+/-- request {"ops":[…],"dpids":[…], "listeners"?:{up:"send"|"sendto"|"disc"|null, down:"sendto"|null, stop:bool}, "halting"?:{event name: outcome}, "cfg":{d3,down,read,err,dpid}} → {"steps":[[out…]…] (chronological), "reg":[[d, c|null]…],
     "regnone": c|null, "conns":[{dpid,up,disc,down_raised,closed}…], "next_xid":n} -/
 def parseLst (j : J) : Except String Lst :=
   match j.get? "listeners" with
@@ -64,14 +65,38 @@ def parseLst (j : J) : Except String Lst :=
         if k = "sendto" then pure true else throw s!"unknown down listener {k}"
     pure { up := up, down := down, stopIfDisc := (← l.boolean "stop") }
 
+def allKinds : List EvKind :=
+  [.handshakeComplete, .up, .features, .portStatus, .down, .packetIn, .errorIn, .barrierIn, .rawStats, .switchDesc]
+
+def parseBeh (s : String) : Except String Beh :=
+  if s = "cont" then pure .cont else if s = "halt" then pure .halt else if s = "haltremove" then pure .haltRemove
+  else if s = "remove" then pure .remove else throw s!"unknown listener outcome {s}"
+
+/-- "halting"?: {"<event name>": "cont"|"halt"|"haltremove"|"remove", …} — the outcome of the last nexus-level listener of that kind -/
+def parseHalt (j : J) : Except String HaltCfg :=
+  match j.get? "halting" with
+  | none => pure HaltCfg.none
+  | some hj => do
+    match hj with
+    | J.obj kv =>
+      for (k, _) in kv do
+        if !(allKinds.any fun e => kindName e = k) then throw s!"unknown event kind {k}"
+    | _ => throw "halting: object expected"
+    let tab ← allKinds.mapM fun k => do
+      match hj.get? (kindName k) with
+      | none => pure (k, Beh.cont)
+      | some v => pure (k, ← parseBeh (← v.asStr))
+    pure fun k => (tab.lookup k).getD .cont
+
 def handle (j : J) : Except String J := do
   let cfg ← parseCfg j
   let lst ← parseLst j
+  let hlt ← parseHalt j
   let ops ← (← j.array "ops").mapM parseOp
   let dpids ← j.nats "dpids"
   let (s, tr) := runL cfg lst ops
   pure (J.mk [
-    ("steps", J.arr (tr.reverse.map fun st => J.arr (st.2.map outJ))),
+    ("steps", J.arr ((haltSteps hlt Act.all (stepOuts tr)).map fun st => J.arr (st.map outJ))),
     ("reg", J.arr (dpids.map fun d => J.arr [J.ofNat d, J.ofOptNat (s.reg (some d))])),
     ("regnone", J.ofOptNat (s.reg none)),
     ("conns", J.arr ((List.range s.n).map fun c =>
